@@ -733,7 +733,8 @@ int gp_str_file(
                 return -1;
             if (fwrite(*str, sizeof**str, gp_str_length(*str), f) != gp_str_length(*str))
                 return fclose(f), -1;
-            fclose(f);
+            if (fclose(f) != 0) // buffered data may fail to reach the file only now
+                return -1;
         }
     }
     return 0;
